@@ -1502,6 +1502,10 @@ theorem published_solid_rows_2D (p : Par ℝ) (f : Flags) (T0C : ℝ) (prof : Li
 theorem hlen_run2D (oc : OpCond ℝ) (dt : ℝ) : (profile oc dt).length ≤ nSteps oc.t_tot dt := by
   rw [Snow.C05.profile_length]
 
+/-- … with equality: `tempProfile(dt)` has exactly `Nt_exp` samples -/
+theorem len_run2D (oc : OpCond ℝ) (dt : ℝ) : (profile oc dt).length = nSteps oc.t_tot dt :=
+  Snow.C05.profile_length oc dt
+
 open Snow.S2D in
 /-- **history_aligned for the 2D run itself** (no side hypothesis) -/
 theorem history_aligned_run2D (p : Par ℝ) (f : Flags) (oc : OpCond ℝ) (Frand : ℝ) (cn : Option ℝ) (r : Result ℝ)
@@ -1527,5 +1531,120 @@ theorem time_nondecreasing_run2D (p : Par ℝ) (f : Flags) (hdt : 0 ≤ (mkCtx p
     (h : run p f oc.start (profile oc (dt p)) (nSteps oc.t_tot (dt p)) Frand cn = .ok r) :
     r.time.toList.Pairwise (· ≤ ·) :=
   time_nondecreasing_2D p f hdt oc.start _ _ (hlen_run2D oc (dt p)) Frand cn r h
+
+
+/-! ### the object on 2D outputs and after asynchronous studies (run() as repaired: K6 + K7) -/
+
+open Snow.S2D in
+/-- **2D, any earlier history of the object**: after `run()` either `results` and the history accessors
+show the complete result of THIS run, or the run raised and every accessor raises – never partial data -/
+theorem complete_or_raise_obj_2D (p : Par ℝ) (f : Flags) (T0C : ℝ) (prof : List ℝ) (NtExp : ℕ) (Frand : ℝ)
+    (cn : Option ℝ) (o : SnowObj (Result ℝ) (Result ℝ)) :
+    let o' := o.runFixed (out2D (run p f T0C prof NtExp Frand cn))
+    (∃ r, run p f T0C prof NtExp Frand cn = .ok r ∧ o'.results = .ok (some r) ∧ o'.history = .ok (some r)) ∨
+    ((run p f T0C prof NtExp Frand cn = .error "ValueError" ∨ run p f T0C prof NtExp Frand cn = .error "IndexError") ∧
+      o'.results = .error "AssertionError" ∧ o'.history = .error "AssertionError") := by
+  intro o'
+  rcases complete_or_raise_2D p f T0C prof NtExp Frand cn with ⟨r, hr⟩ | hr | hr
+  · left
+    exact ⟨r, hr, by simp [o', hr, out2D, SnowObj.runFixed, SnowObj.results],
+      by simp [o', hr, out2D, SnowObj.runFixed, SnowObj.history]⟩
+  · right
+    exact ⟨Or.inl hr, by simp [o', hr, out2D, SnowObj.runFixed, SnowObj.results],
+      by simp [o', hr, out2D, SnowObj.runFixed, SnowObj.history]⟩
+  · right
+    exact ⟨Or.inr hr, by simp [o', hr, out2D, SnowObj.runFixed, SnowObj.results],
+      by simp [o', hr, out2D, SnowObj.runFixed, SnowObj.history]⟩
+
+/-- **asynchronous study that completed**: `results` is the table with one row per repetition and the
+history accessors return `None` (the repetitions ran in worker processes) – that is the complete result of
+such a study -/
+theorem study_async_ok {S H : Type} (o : SnowObj (List S) H) (reps : List (RunOut S H))
+    (he : asyncExc reps = none) :
+    (o.runStudyAsync reps).results = .ok (some (reps.filterMap (·.stats))) ∧
+      (o.runStudyAsync reps).history = .ok none := by
+  simp [SnowObj.runStudyAsync, SnowObj.results, SnowObj.history, he]
+
+/-- … with exactly `Nrep` rows when every repetition that returned handed back its row -/
+theorem study_async_rows {S H : Type} (reps : List (RunOut S H)) (hrows : ∀ r ∈ reps, r.stats.isSome) :
+    (reps.filterMap (·.stats)).length = reps.length := by
+  induction reps with
+  | nil => rfl
+  | cons r rs ih =>
+    have h1 := hrows r (by simp)
+    obtain ⟨s, hs⟩ := Option.isSome_iff_exists.mp h1
+    simp [List.filterMap_cons, hs, ih (fun x hx => hrows x (List.mem_cons_of_mem _ hx))]
+
+/-- **asynchronous study in which a repetition raised**: `run()` raises and every accessor raises – never
+a table with the failed seeds silently missing -/
+theorem study_async_raises {S H : Type} (o : SnowObj (List S) H) (reps : List (RunOut S H)) (e : String)
+    (he : asyncExc reps = some e) :
+    (o.runStudyAsync reps).results = .error "AssertionError" ∧
+      (o.runStudyAsync reps).history = .error "AssertionError" := by
+  simp [SnowObj.runStudyAsync, SnowObj.results, SnowObj.history, he]
+
+/-- a study raises iff some repetition raised -/
+theorem asyncExc_isSome_iff {S H : Type} (reps : List (RunOut S H)) :
+    (asyncExc reps).isSome ↔ ∃ r ∈ reps, r.exc.isSome := by
+  unfold asyncExc
+  constructor
+  · intro h
+    cases hf : reps.find? (fun r => r.exc.isSome) with
+    | none => rw [hf] at h; simp at h
+    | some r => exact ⟨r, List.mem_of_find?_eq_some hf, by simpa using List.find?_some hf⟩
+  · rintro ⟨r, hr, he⟩
+    cases hf : reps.find? (fun r => r.exc.isSome) with
+    | none =>
+      have := List.find?_eq_none.mp hf r hr
+      simp [he] at this
+    | some r' =>
+      have := List.find?_some hf
+      simpa using this
+
+
+/-! ### `0 ≤ dt` discharged from the constants -/
+
+open Snow.S2D in
+/-- the 2D time step `dt = (0.4/alpha_max)·dz²dr²/(dr²+dz²)` is non-negative when `alpha_max ≥ 0` -/
+theorem dt_grid2D_nonneg (p : Par ℝ) (f : Flags) (hα : 0 ≤ alphaMax p) : 0 ≤ (mkCtx p f).dt := by
+  simp only [mkCtx, S2D.dt, lit_real]
+  have e : ((4 : ℤ) : ℝ) / (10 : ℝ) ^ 1 = 4 / 10 := by norm_num
+  rw [e]
+  have h1 := mul_self_nonneg (dz p)
+  have h2 := mul_self_nonneg (dr p)
+  apply div_nonneg (mul_nonneg (div_nonneg (by norm_num) hα) (mul_nonneg h1 h2)) (add_nonneg h2 h1)
+
+open Snow.S2D in
+/-- **time axis non-decreasing for the 2D run itself** (`T0C := oc.start`, `profile := tempProfile(dt)`,
+`Nt_exp := ceil(t_tot/dt)+1` – the run `Snowing._run_2D` makes), the only hypothesis being `alpha_max ≥ 0` -/
+theorem time_nondecreasing_run2D_code (p : Par ℝ) (f : Flags) (hα : 0 ≤ alphaMax p) (oc : OpCond ℝ) (Frand : ℝ)
+    (cn : Option ℝ) (r : Result ℝ)
+    (h : run p f oc.start (profile oc (S2D.dt p)) (nSteps oc.t_tot (S2D.dt p)) Frand cn = .ok r) :
+    r.time.toList.Pairwise (· ≤ ·) :=
+  time_nondecreasing_run2D p f (dt_grid2D_nonneg p f hα) oc Frand cn r h
+
+open Snow.S2D in
+/-- `times_within_2D` with `0 ≤ dt` discharged -/
+theorem times_within_2D_code (p : Par ℝ) (f : Flags) (hα : 0 ≤ alphaMax p) (T0C : ℝ) (prof : List ℝ)
+    (NtExp : ℕ) (Frand : ℝ) (cn : Option ℝ) (r : Result ℝ) (h : run p f T0C prof NtExp Frand cn = .ok r) :
+    r.iCool + r.iSol ≤ prof.length - 1 ∧ 0 ≤ r.tNuc ∧ 0 ≤ r.tSol ∧ r.tNuc ≤ r.tFr ∧
+      r.tFr ≤ (mkCtx p f).dt * ((prof.length - 1 : ℕ) : ℝ) / 60 :=
+  times_within_2D p f (dt_grid2D_nonneg p f hα) T0C prof NtExp Frand cn r h
+
+/-- `times_within_1D` with `0 ≤ dt` discharged (`alpha_max = lambda_i/(cp_i·rho_l) ≥ 0`) -/
+theorem times_within_1D_code (p : SnowIn ℝ) (Nz : ℕ) (old : Bool) (shelf : List ℝ) (iEnd iS : ℕ)
+    (hα : 0 ≤ p.const.lambda_i / (p.const.cp_i * p.const.rho_l))
+    (h1 : (run1DOn p Nz old shelf).NtCoolEnd = some iEnd) (h2 : (run1DOn p Nz old shelf).NtSolEnd = some iS) :
+    iEnd + iS ≤ shelf.length - 1 ∧
+      ∀ st, (run1DOn p Nz old shelf).stats = some st → ∀ a b, st.t_sol = some a → st.t_fr = some b →
+        0 ≤ st.t_nuc ∧ 0 ≤ a ∧ st.t_nuc ≤ b ∧
+          b ≤ (grid1D p Nz).dt * ((shelf.length - 1 : ℕ) : ℝ) / 60 :=
+  times_within_1D p Nz old shelf iEnd iS (dt_grid1D_nonneg p Nz hα) h1 h2
+
+/-- `time_nondecreasing_1D` for `run1D p` itself: no side hypothesis but `alpha_max ≥ 0` -/
+theorem time_nondecreasing_run1D (p : SnowIn ℝ) (hα : 0 ≤ p.const.lambda_i / (p.const.cp_i * p.const.rho_l))
+    (rows : Array (Row ℝ)) (h : (run1D p).hist = some rows) :
+    rows.toList.Pairwise (fun a b => a.time ≤ b.time) :=
+  time_nondecreasing_1D p NzCode false _ (hlen_run1D p NzCode) (dt_grid1D_nonneg p NzCode hα) rows h
 
 end Snow.C13
